@@ -91,10 +91,10 @@ check('C18', 'exploration',
       'SpyneNull.tla defines the closed case family (body style x how each argument is passed {positional, keyword, both, '
       'keyword None, absent} x return kind {none, one, two, three, generator, Ignored, Fault, non-Fault}), the expected argument '
       'packing and the expected result of the direct and of the wire path, and checks their agreement as a law of the table. '
-      'TLC exports the 555 cases; each is run through NullServer and over the wire (hand-written XmlDocument request read back '
+      'TLC exports the 1886 cases (incl. type defaults, auxiliary twins - also narrower ones -, ostr=True) and 1554 header histories on one server; each is run through NullServer and over the wire (hand-written XmlDocument request read back '
       'with lxml; Soap11 and XmlDocument loopback clients for the wrapped style) on the SAME application object, and TLC '
       'evaluates the clauses (arguments received, result, direct == wire, exactly one invocation) on every observation. '
-      'No interleaving or history is explored: this is an exhaustive case table, not a state space.',
+      'The histories are sequences of set / clear / call operations on ONE NullServer and one wire endpoint; no interleaving is explored.',
       'TLA+ case table evaluated by TLC on paired direct/wire observations',
       'DESIGN.md 4/C18')
 
@@ -110,12 +110,12 @@ check('C08', 'exploration',
       'DESIGN.md 4/C08')
 
 check('C05', 'exploration',
-      'SpyneValidate.tla defines 1 517 cases (one facet group and one probe each: numeric ranges, fixed-width bounds - '
+      'SpyneValidate.tla defines 2 063 cases (one facet group and one probe each: numeric ranges, fixed-width bounds - '
       'exhaustively -130..260 for the 8-bit types, 32/64-bit bounds as digit strings - string length, whole-string pattern, '
-      'enumeration, occurrence counts 0..3 against min/max, nullability, instants written with four UTC offsets, lexical '
+      'enumeration, occurrence counts 0..3 against min/max, nullability, instants written with four UTC offsets, zone-less literals of a zoned type, times of day, inherited / renamed / XML-attribute mandatory members, lexical '
       'well-formedness) with Valid computed in TLA+; TLC checks that every facet is effective and that verdicts are '
       'offset-free, and exports the table. Every case x nesting position {argument, nested field, array member, XML attribute} '
-      'x family {XML, SOAP 1.1, SOAP 1.2, JSON, YAML, MessagePack, HttpRpc} is sent as a real request (35 000 requests, written '
+      'x family {XML, SOAP 1.1, SOAP 1.2, JSON, YAML, MessagePack with text as str and as bin, HttpRpc} is sent as a real request (83 000 requests, written '
       'by independent encoders) and TLC compares user-function-ran / Client-fault with Valid. An exhaustive case table.',
       'TLA+ facet/verdict table (TLC) + evaluation of real accept/reject observations',
       'DESIGN.md 4/C05')
@@ -123,7 +123,7 @@ check('C05', 'exploration',
 check('C01', 'exploration',
       'SpyneSignatures.tla defines the closed signature/value family (templates with holes: 11 leaf types x occurrence choices, '
       'complex types in two namespaces, wrapped and unwrapped arrays, arrays of objects, inheritance across namespaces, XML '
-      'attributes, several arguments / return values, bare and out_bare styles; 1 980 cases) and SpyneXmlDoc.tla the published '
+      'attributes, several arguments / return values, bare and out_bare styles, AnyXml members carrying trees with type markers of their own; 3 093 cases) and SpyneXmlDoc.tla the published '
       'document/literal mapping as a token-level encoder plus the equality Norm. For every case x {XmlDocument, Soap11, Soap12} x '
       'validator {None, soft, lxml} the request is written by an independent encoder and TLC checks: the request IS the mapping of '
       'the values, the user function ran once with equal values, the response IS the mapping of the returned value, the loopback '
@@ -176,7 +176,7 @@ check('C04', 'exploration',
       'enum, arrays) and the closed set of type-directed mutants of one valid request: xsi:type retagged at every position with every class '
       'of the interface, XSD builtins and unknown names; hostile leaf texts (attribute names of the model classes); structure where a leaf '
       'is declared and text where a structure is; every JSON value kind where another is declared; wrapper keys renamed; flat keys '
-      'respelled (699 mutants). Every mutant is sent to ONE long-lived server per configuration, forward and in reverse order '
+      'respelled (1 664 mutants over 17 argument slots incl. Decimal, Uuid, ByteArray and an XML-attribute member). Every mutant is sent to ONE long-lived server per configuration, forward and in reverse order '
       '(XmlDocument / Soap11 / Soap12 x validator None / soft / lxml x polymorphic on / off; JSON / YAML / MessagePack x soft, plain and '
       'wrapper documents; HttpRpc x soft); the driver reports the shape of every delivered value and TLC (TraceMutate) evaluates '
       'Called (ran once and every value Conforms to its declared type or a registered subclass) or Refused (not run, Client fault).',
@@ -203,7 +203,7 @@ check('C17', 'exploration',
       'instance) - positive controls for the detectors on relaxed instances, isolation for default ones. Part 2: Attacks = kind (external '
       'general / parameter entities over file, http, ftp; external DTD subsets; XInclude; internal entities; entity chains of growing '
       'fan-out and depth; quadratic blow-up; nesting 300 / 5000; 50000 attributes) x position of a valid request x {XmlDocument, Soap11, '
-      'Soap12} x {WSGI, ServerBase} x framing {plain, transport charset + encoding declaration, root part of multipart/related} (616). '
+      'Soap12, the schema reader} x {WSGI, ServerBase} x framing {plain, transport charset + encoding declaration, multipart/related with and without attachment, control character} x validator {none, lxml} x non-security option sets of the integrator (1 541). '
       'The driver runs in a child process under strace: opens of the canary file / DTD and connects to a loopback listener are attributed '
       'to the attack in flight, canary and replacement texts are searched in what user code received and in the response, wall time and '
       'resident-set growth are measured; TLC (TraceXmlAttack) evaluates Fails(attack, observation).',
@@ -213,11 +213,11 @@ check('C17', 'exploration',
 check('C07', 'exploration',
       'SpyneWsdl.tla: applications assembled from a pool of method shapes (custom operation / message names, SOAP headers from two '
       'namespaces, declared faults - one with a namespace of its own -, bare / out_bare styles with differing request and response '
-      'primitives, foreign-namespace arguments, port types) over one or two services (193 applications) and the clauses the WSDL must '
+      'primitives, foreign-namespace arguments, port types, a polymorphic class tree) over one to three services (382 applications) and the clauses the WSDL must '
       'satisfy. Each application is built for real; the structure of its document is extracted and TLC (TraceWsdlDoc) checks per method '
       'OpOnce, InDeclaredPort, MessagesMatch, FaultsDeclared, HeadersDeclared, ZeepDrives and per document Closed (every QName '
       'reference - type, base, element, ref, message, binding, portType, header part - resolves), NoStrayOps, Deterministic (rebuilt '
-      'twice in each of several fresh processes with different PYTHONHASHSEED, sha256 compared). ZeepDrives: a zeep client generated from '
+      'twice in each of several fresh processes with different PYTHONHASHSEED, and served after six histories of the serving objects - prebuilt, a second transport, asked directly -, sha256 compared). ZeepDrives: a zeep client generated from '
       'the served WSDL alone calls every method (with headers) on the real server under validator=lxml and decodes the value returned. '
       'The schema-assembly side (imports, types per namespace) is modelled and checked in SpyneSchema (C06).',
       'TLA+ application family + structural clauses evaluated by TLC on real documents; independent SOAP toolkit driven by the WSDL',
